@@ -39,6 +39,25 @@ CHECKS = {
              "theorem about the emulator); metadata completeness is checked on the files, not proved",
         technique="Lean 4 invariant proof (clock order + marker balance) over the buffer model + differential run + ovniemu acceptance",
         design="DESIGN.md §5 C02"),
+    "C03": dict(
+        text=("Theorems (Props/C03.lean, 24): heap.h insert/pop (value-tree model with the same comparisons in the same order) "
+              "keep the complete-tree shape, heap order and multiset and never reach die(); pop returns a maximum "
+              "(heap_insert_inv, heap_pop_inv, pop_is_max, heap_ops_never_die; all sizes); the player (init + re-insert/pop "
+              "loop + update_clocks) emits a permutation of all events (replay_perm), each stream in order "
+              "(replay_stream_order), sclock = clock + host offset (replay_clock), non-decreasing for sorted streams and "
+              "always when ovniemu does not reject (replay_sorted, replay_sorted_or_rejected), dclock = sclock - first sclock "
+              "(dclock_def); it never fails on sorted streams with non-negative first corrected clock passing the clock gate, "
+              "never in ovnidump mode, and rejects only through its guards (replay_total, replay_total_unsorted, "
+              "replay_rejects_only_by_guards); trace_load's sort makes the result independent of the enumeration order for "
+              "every offset table (enumeration_independent, dump_/emu_enumeration_independent). Tie: the real heap.h in an "
+              "ASan/UBSan harness vs the Lean heap (random + bounded-exhaustive scripts with many equal keys, every line "
+              "diffed), ovnidump's exact line order and ovniemu's thread.prv (row,time) order vs the Lean player on generated "
+              "multi-loom traces with offset tables, empty streams and shuffled directory creation, plus independent merge/"
+              "heap oracles. Known finding: a negative first corrected clock is refused."),
+        note=TB + "; heap pointers modelled as a value tree; streams as decoded event lists; int64 clocks as unbounded Int "
+             "(no overflow); DL_SORT stable; ovniemu's order observed through the type-4 PRV records",
+        technique="Lean 4 data-structure invariants + refinement of the player to an abstract merge + differential runs (C harness, ovnidump, ovniemu)",
+        design="DESIGN.md §5 C03"),
     "C07": dict(
         text=("Theorems (Props/C07.lean, 12) over a transcription of body.c/task.c (one branch per C guard, in order) and of the "
               "nOS-V / Nanos6 update_task layer, against a life-cycle specification written independently: the model accepts a "
